@@ -219,16 +219,33 @@ def node_budget(limit):
 
     def call(self, *a, **k):
         counter["n"] = 0
+        counter["search"] = 0
         counter["calls"] += 1
         return orig_call(self, *a, **k)
 
+    # search steps: the tree search is a trampolined tail-call chain that can cycle without creating nodes
+    orig_loc = getattr(bi._Interval, "_loc_inner", None)
+
+    def loc_inner(self, *a, **k):
+        counter["search"] = counter.get("search", 0) + 1
+        if counter["search"] > counter["max_search_per_call"]:
+            counter["max_search_per_call"] = counter["search"]
+        if counter["search"] > 20 * counter["limit"]:
+            raise WorkBudgetExceeded(f"more than {20 * counter['limit']} tree-search steps in a single call")
+        return orig_loc(self, *a, **k)
+
+    counter["max_search_per_call"] = 0
     bi._Interval.__init__ = counting
     bi.BrownianInterval.__call__ = call
+    if orig_loc is not None:
+        bi._Interval._loc_inner = loc_inner
     try:
         yield counter
     finally:
         bi._Interval.__init__ = orig_init
         bi.BrownianInterval.__call__ = orig_call
+        if orig_loc is not None:
+            bi._Interval._loc_inner = orig_loc
 
 
 def leaves_covering(interval, ta, tb):
